@@ -229,7 +229,12 @@ class Check:
                 inconclusive.append(f"{s['name']}: {len(s['xval_mismatch'])} path(s) whose native replay differs: "
                                     f"{s['xval_mismatch'][0]}")
             for pred_name, pred in inst.must_reach:
-                if not any(pred(json.loads(k)) for k in s['outcomes']):
+                def _safe(pred, o):
+                    try:
+                        return bool(pred(o))
+                    except Exception:
+                        return False
+                if not any(_safe(pred, json.loads(k)) for k in s['outcomes']):
                     if not s.get('error'):
                         inconclusive.append(f"{s['name']}: vacuity guard: no path reached '{pred_name}'")
             for v in s['violations']:
